@@ -1,6 +1,7 @@
 open BinNums
 open BinPos
 open Datatypes
+open Decimal
 
 module N :
  sig
@@ -12,17 +13,25 @@ module N :
 
   val sub : coq_N -> coq_N -> coq_N
 
+  val mul : coq_N -> coq_N -> coq_N
+
   val compare : coq_N -> coq_N -> comparison
 
   val eqb : coq_N -> coq_N -> bool
 
   val leb : coq_N -> coq_N -> bool
 
+  val ltb : coq_N -> coq_N -> bool
+
   val pos_div_eucl : positive -> coq_N -> coq_N * coq_N
 
   val div_eucl : coq_N -> coq_N -> coq_N * coq_N
 
   val modulo : coq_N -> coq_N -> coq_N
+
+  val of_nat : nat -> coq_N
+
+  val to_uint : coq_N -> uint
 
   val eq_dec : coq_N -> coq_N -> bool
  end
